@@ -69,6 +69,16 @@ func (o *objectGoArrayReflect) init() {
 	o.putIdx = o._putIdx
 }
 
+func (o *objectGoArrayReflect) equal(other objectImpl) bool {
+	switch other := other.(type) {
+	case *objectGoArrayReflect:
+		return o.equalValue(&other.objectGoReflect)
+	case *objectGoSliceReflect:
+		return o.equalValue(&other.objectGoReflect)
+	}
+	return false
+}
+
 func (o *objectGoArrayReflect) updateLen() {
 	o.lengthProp.value = intToValue(int64(o.fieldsValue.Len()))
 }
